@@ -1831,6 +1831,9 @@ func genC15(g *G, sc *Scenario, tier string) {
 				sc.Ops = append(sc.Ops, Op{K: kind}) // a clean transfer afterwards catches up
 			}
 		}
+		if g.P(0.5) {
+			sc.Ops = append(sc.Ops, Op{K: "readback", S: g.Pick([]string{"entities", "changes", "latest"}), Limit: g.PickInt([]int{0, 1, 2, 3, 5})})
+		}
 		if publicNS && !usedT && g.P(0.7) {
 			// the dataset lists a public namespace nobody has used yet; its first use is an update of an entity that
 			// exists already (no new entity in the batch), read back through a clean pull
